@@ -1066,3 +1066,6 @@ func (m *MemStore) CommitInfo(id githash.Hash) (tree githash.Hash, parents []git
 var _ gitstore.Storer = (*MemStore)(nil)
 
 type treeEntry = gitstore.TreeEntry
+
+// TreeEntry is gitstore.TreeEntry (exported alias for the checks).
+type TreeEntry = gitstore.TreeEntry
